@@ -213,7 +213,7 @@ class DavSession:
         return self.world.request(method, path, hdrs, body)
 
     def put(self, c, n, data, ct=None, im=None, inm=None, valid=None, re=False, fault=0, chunked=False,
-            external=False):
+            external=False, segmented=False):
         ct = ct or gamma.content_type_for(n)
         kind = gamma.kind_for_ct(ct)
         b = self.body_id(data, kind, valid)
@@ -227,6 +227,7 @@ class DavSession:
             hdrs.append(("If-None-Match", inmh))
         path = self.slots[c] + "/" + n
         self.world.chunked_next = bool(chunked)     # (aiohttp front end: Transfer-Encoding: chunked)
+        self.world.segmented_next = bool(segmented)  # (aiohttp: the request arrives in several segments)
         resp = self._request("PUT", path, hdrs, data, fault, external=external)
         ev = {"op": "Put", "c": c, "n": n, "b": b, "im": imr, "inm": inmr, "re": bool(re),
               "fault": fault if self._fault_fired else 0, "ext": bool(external)}
